@@ -39,14 +39,14 @@ func vfstub_sm_waitForSend(s *Session, hdr header, body []byte) error {
 }
 
 type smEnd struct {
-	stream   *Stream
-	model    [64]byte // bytes flushed towards this end, in order
-	sent     int      // flushed towards this end
-	deliv    int      // ... of which delivered to this end's session
-	read     int      // consumed by this end
-	closed   bool     // this end called Close
-	lastSt   uint32
-	sawEOF   bool
+	stream *Stream
+	model  [64]byte // bytes flushed towards this end, in order
+	sent   int      // flushed towards this end
+	deliv  int      // ... of which delivered to this end's session
+	read   int      // consumed by this end
+	closed bool     // this end called Close
+	lastSt uint32
+	sawEOF bool
 }
 
 type smWorld struct {
@@ -360,10 +360,26 @@ func H_C15_pool() {
 	var held [2]*Stream // streams currently held by the two callers
 	var everGot [6]*Stream
 	ngot := 0
+	// a fixed prefix brings the model into the interesting states cheaply: 0 none; 1 caller 0 holds
+	// a stream with a delivered request; 2 ... and has put it back (an idle pooled stream known to
+	// the peer); then L free steps
+	prefix := vfShape("prefix", 0, 2)
+	forced := [4]int{0, 1, 2, 6}
+	nforced := 0
+	if prefix == 1 {
+		nforced = 3
+	} else if prefix == 2 {
+		nforced = 4
+	}
 	L := vfShape("steps", 1, 7)
-	for step := 0; step < L; step++ {
-		op := vfShape("op", 0, 7)
-		k := vfShape("caller", 0, 1)
+	for step := 0; step < nforced+L; step++ {
+		var op, k int
+		if step < nforced {
+			op, k = forced[step], 0
+		} else {
+			op = vfShape("op", 0, 7)
+			k = vfShape("caller", 0, 1)
+		}
 		switch op {
 		case 0: // GetStream
 			if held[k] != nil {
@@ -385,8 +401,9 @@ func H_C15_pool() {
 			}
 			data := vfBytes(3)
 			held[k].BufferWriter().WriteBytes(data)
+			wasOpen := held[k].IsOpen()
 			if ferr := held[k].Flush(false); ferr != nil {
-				vfAssert(ferr == ErrQueueFull, "C15.request-flush")
+				vfAssert(ferr == ErrQueueFull || (ferr == ErrStreamClosed && !wasOpen), "C15.request-flush")
 			}
 		case 2:
 			w.deliverAB()
@@ -515,16 +532,16 @@ func H_C19_conn() {
 // close; close reports) - NOT the interleavings of arrivals with a running callback.
 
 type c20CB struct {
-	st      *Stream
-	mode    [6]int // per invocation: 0 consume everything, 1 consume one byte, 2 consume everything and Close
-	calls   int
-	seen    [64]byte
-	nseen   int
-	active  int
-	overlap bool
-	local   int
-	remote  int
-	afterClose bool
+	st           *Stream
+	mode         [6]int // per invocation: 0 consume everything, 1 consume one byte, 2 consume everything and Close
+	calls        int
+	seen         [64]byte
+	nseen        int
+	active       int
+	overlap      bool
+	local        int
+	remote       int
+	afterClose   bool
 	closedInside bool
 }
 
@@ -567,6 +584,13 @@ func (c *c20CB) OnRemoteClose() { c.remote++ }
 type c20Listen struct{ cb *c20CB }
 
 func (l *c20Listen) OnNewStream(s *Stream) {
+	if l.cb.st != nil {
+		// the id surfaced again (F-ZOMBIE: data for a stream that was already closed): the
+		// application treats it as a new stream with callbacks of its own
+		vfAssert(false, "C19.stream-surfaces-exactly-once")
+		s.SetCallbacks(&c20CB{st: s})
+		return
+	}
 	l.cb.st = s
 	s.SetCallbacks(l.cb)
 }
